@@ -93,7 +93,7 @@ func c19GenBucket(rng *rand.Rand) c19BucketCase {
 	case 2:
 		c.Ratio = vlib.Pick(rng, "0.001", "0.1", "0.3", "0.999", "1000", "3.333")
 	case 3:
-		c.Ratio = fmt.Sprintf("%d.%d", rng.Intn(4), rng.Intn(10))
+		c.Ratio = fmt.Sprintf("%d.%d", rng.Intn(4), 1+rng.Intn(9))
 	default:
 		c.Ratio = vlib.Pick(rng, "0.5", "1", "0.1")
 	}
@@ -181,8 +181,13 @@ func c19Bucket(r *vlib.Run, c c19BucketCase) (viol [][2]string, sig string) {
 	tok := new(big.Rat).Set(mx)
 	maxF, _ := strconv.ParseFloat(c.Max, 64)
 	one, zero := big.NewRat(1, 1), new(big.Rat)
+	// binary-exact parameters: every float64 operation of the bucket is exact,
+	// tolerance 0.  Otherwise 1e-9 for the parameters plus 1e-9 per event.
 	tol := new(big.Rat)
 	step := big.NewRat(1, 1000000000)
+	if !exact {
+		tol.Set(step)
+	}
 	cmp := func(label string, k int) {
 		got := c19Tokens(rt)
 		if got < 0 || got > maxF {
@@ -225,6 +230,9 @@ func c19Bucket(r *vlib.Run, c c19BucketCase) (viol [][2]string, sig string) {
 				v("throttle-decision", "maxTokens=%s tokenRatio=%s: failure event %d leaves %s tokens (threshold %s): throttle()=%v, want %v", c.Max, c.Ratio, k, tok.FloatString(9), half.FloatString(9), refused, want)
 			}
 			r.Count("wb_throttle_decisions", 1)
+			if !exact {
+				tol.Add(tol, step)
+			}
 			cmp("failure", k)
 		} else {
 			rt.successfulRPC()
